@@ -1,6 +1,6 @@
 /-
-Model driver for the `tmpl` line protocol (C19).  `m_tmpl [cloneOut] [pairKey]` selects the variant
-(no argument: the providers as they are).  One operation per input line, one result line each:
+Model driver for the `tmpl` line protocol (C19).  `m_tmpl` models the providers as they are;
+`m_tmpl oldHandOut` / `m_tmpl oldKey` select the defective earlier revisions (see `Variant`).  One operation per input line, one result line each:
 
   new <html|text> <on|off>              fresh file tree and provider                      -> ok
   file <path> <root> <n>=<b>,…|- [bad]  write a template file (all fields hex, `-` = empty) -> ok
@@ -102,7 +102,7 @@ partial def loop (V : Variant) (inp out : IO.FS.Stream) (d : DSt) : IO Unit := d
   loop V inp out d'
 
 def main (args : List String) : IO Unit := do
-  let V : Variant := { cloneOut := args.contains "cloneOut", pairKey := args.contains "pairKey" }
+  let V : Variant := { cloneOut := !args.contains "oldHandOut", pairKey := !args.contains "oldKey" }
   let out ← IO.getStdout
   loop V (← IO.getStdin) out {}
   out.flush
